@@ -38,7 +38,7 @@ type result struct {
 	ops    []jOp
 	gsteps []string
 	counts []string
-	shapePartial bool
+	shapePartial, shapeOrphan, otherTaintLost bool
 	sig    string
 }
 
@@ -79,6 +79,10 @@ func gOp(o *jOp) string {
 		return "Restart"
 	case "gone":
 		return fmt.Sprintf("CandGone %s", gnat(o.Node))
+	case "nodedel":
+		return fmt.Sprintf("NodeObjDeleting %s", gnat(o.Node))
+	case "nodegone":
+		return fmt.Sprintf("NodeObjGone %s", gnat(o.Node))
 	}
 	panic("gOp")
 }
@@ -98,7 +102,23 @@ func runHistory(n int, maxOps int, next func(w *world, i int) *jOp) (res result)
 		es := w.exec(o)
 		after := w.snapshot()
 		if !after.MapConsistent {
-			panic("queue map holds an unknown provider id")
+			panic("queue map holds an unknown provider id, or IsEmpty / GetCommands disagree with it")
+		}
+		if after.OtherTaintLost {
+			res.otherTaintLost = true
+		}
+		if o.Op == "recon" && o.Ret == "RDropped" {
+			// the finding's exact shape: the request is dropped although the command still holds a live candidate,
+			// and the command's first candidate is completely gone
+			for _, c := range before.Cmds {
+				if contains(c.Cands, o.Node) && before.Nodes[c.Cands[0]].Gone {
+					for _, m := range c.Cands {
+						if !before.Nodes[m].Gone {
+							res.shapeOrphan = true
+						}
+					}
+				}
+			}
 		}
 		res.ops = append(res.ops, *o)
 		res.gsteps = append(res.gsteps, fmt.Sprintf("(%s, mkObs %s %s %s)", gOp(o), o.Ret, kit.GListOf(es, func(e effect) string { return e.gallina() }), after.gallina()))
@@ -153,6 +173,13 @@ func classify(o *jOp, es []effect, before, after snapshot) []string {
 	switch o.Op {
 	case "start":
 		b := "start:" + o.Ret
+		out = append(out, map[bool]string{true: "start:method=drift", false: "start:method=emptiness(consolidation)"}[o.K%2 == 0])
+		if o.PoolFault != "" {
+			out = append(out, "start:every-create-fails:nodepool-"+o.PoolFault)
+		}
+		if o.Via != "" {
+			out = append(out, "start:via-"+o.Via+":"+o.Ret)
+		}
 		if o.Ret == "Started" {
 			for _, c := range after.Cmds {
 				if len(before.Cmds) == 0 || c.ID > before.Cmds[len(before.Cmds)-1].ID {
@@ -280,6 +307,25 @@ func classify(o *jOp, es []effect, before, after snapshot) []string {
 	default:
 		out = append(out, "env:"+o.Op)
 	}
+	if o.Op == "recon" || o.Op == "cleanup" {
+		for id, nd := range before.Nodes {
+			if nd.Gone || id >= len(after.Nodes) {
+				continue
+			}
+			owned := nd.Owner >= 0
+			if o.Op == "cleanup" && o.Ret == "COk" && !owned && !nd.MView {
+				if nd.Obj == "NDeleting" && nd.Taint && after.Nodes[id].Taint {
+					out = append(out, "cleanup:taint-of-deleting-node-left-alone")
+				}
+				if nd.Obj == "NGone" && nd.Cond && after.Nodes[id].Cond {
+					out = append(out, "cleanup:statenode-without-node-skipped")
+				}
+			}
+			if o.Op == "recon" && o.Ret == "RFailed" && owned && nd.Obj != "NPresent" {
+				out = append(out, "rollback:candidate-node-object-"+nd.Obj)
+			}
+		}
+	}
 	return out
 }
 
@@ -313,6 +359,12 @@ func emit(c *kit.Ctx, kind string, r result) {
 	if r.shapePartial {
 		shapes = append(shapes, "partial-delete-then-failure")
 	}
+	if r.shapeOrphan {
+		shapes = append(shapes, "first-candidate-vanished")
+	}
+	if r.otherTaintLost {
+		c.Fail(c.NextID(), "a taint other than karpenter.sh/disrupted:NoSchedule was removed from a Node", "", jCase{Kind: kind, Mode: "MAll", N: r.n, Ops: r.ops})
+	}
 	add := func(mode, key string) {
 		c.AddCase(fmt.Sprintf("Case %s %s %s", mode, gnat(r.n), steps), jCase{Kind: kind, Mode: mode, N: r.n, Ops: r.ops, KfKey: key, Shapes: strings.Join(shapes, "+")}, r.sig)
 	}
@@ -324,7 +376,12 @@ func emit(c *kit.Ctx, kind string, r result) {
 	// key; the finding's own clause is checked in a case of its own that carries the key.
 	c.Count("shape:" + strings.Join(shapes, "+"))
 	add("MCore", "")
-	add("MPartial", "partial-delete-then-failure")
+	if r.shapePartial {
+		add("MPartial", "partial-delete-then-failure")
+	}
+	if r.shapeOrphan {
+		add("MOrphan", "first-candidate-vanished")
+	}
 }
 
 func main() {
@@ -344,7 +401,9 @@ func main() {
 		"disruption.Queue.Reconcile / waitOrTerminate / CompleteCommand (latches, vanished replacement, timeout wrapper, delete with retries, rollback) = C08.Model.recon",
 		"disruption.Controller.Reconcile stale taint/condition cleanup (Synced gate, outdated nodes) = C08.Model.cleanup",
 		"state.RequireNoScheduleTaint / state.ClearNodeClaimsCondition under retry.OnError with NotFound / transient / persistent faults = C08.Model.call_result",
-		"state.Cluster MarkForDeletion / UnmarkForDeletion / MarkedForDeletion / NodeClaimExists / Synced as seen by the queue = C08.Model (n_mark, n_stdel, r_st, synced)",
+		"state.Cluster MarkForDeletion / UnmarkForDeletion / MarkedForDeletion / NodeClaimExists / Synced / DeleteNode / DeleteNodeClaim as seen by the queue = C08.Model (n_mark, n_stdel, r_st, synced, n_gone, n_obj)",
+		"reconcile.AsReconciler(client, Queue) keyed by cmd.Candidates[0].NodeClaim (the only key StartCommand enqueues) = C08.Model.recon (RDropped)",
+		"disruption.Controller.Reconcile -> disrupt() -> Queue.StartCommand with a scripted method (fault-free starts while the clean-up has nothing to do) = C08.Model.start",
 	}
 	jobs := scripted(c)
 	jobs = append(jobs, randomJobs(c)...)
@@ -366,7 +425,8 @@ func main() {
 	}
 	c.Meta.Extra = map[string]interface{}{
 		"assumptions": []string{
-			"candidates of a command are initialized, Karpenter-managed nodes with a Node object (guaranteed by GetCandidates, C07); Node objects themselves never carry a deletionTimestamp in the histories",
+			"candidates of a command are initialized, Karpenter-managed nodes with a Node object when the command starts (guaranteed by GetCandidates, C07); afterwards the Node object may be deleting or gone and the whole node may vanish",
+			"only dynamic NodePools: the static-pool bookkeeping of markDisrupted / CreateNodeClaims (NodePoolState) belongs to C03",
 			"commands have a non-empty, duplicate-free candidate list (NoOp commands are filtered by the controller)",
 			"concurrency between the singleton controller and the queue workers is represented at method granularity (each StartCommand / Reconcile / cleanup is one atomic step)",
 		},
